@@ -35,7 +35,7 @@ ASSUMPTIONS = [
     "libc's tz database is the authority for the offset in force at an instant",
 ]
 BUDGET = {"quick": (300, 4), "thorough": (10000, 16)}
-REQUIRED = ["now_dst/file_std", "now_std/file_dst", "now_dst/file_dst", "now_std/file_std", "size0", "fixed_offset", "iana", "big_file"]
+REQUIRED = ["now_dst/file_std", "now_std/file_dst", "now_dst/file_dst", "now_std/file_std", "size0", "fixed_offset", "iana", "big_file", "near_switch", "within_hour_after_switch"]
 
 IANA = ["Europe/Berlin", "America/New_York", "America/Los_Angeles", "Australia/Sydney", "Pacific/Auckland", "America/Sao_Paulo",
         "Asia/Kolkata", "Asia/Kathmandu", "Pacific/Kiritimati", "Etc/GMT+12", "Europe/London", "Africa/Cairo", "America/St_Johns",
@@ -73,6 +73,13 @@ def _scn(draw):
                     "mtime": st.integers(315532800, 2145916800),
                     "frac": st.sampled_from([0, 0, 0.25, 0.5, 0.999]),
                     "near_now_days": st.one_of(st.none(), st.integers(-300, 0)),
+                    "near_switch": st.one_of(
+                        st.none(),
+                        st.none(),
+                        st.fixed_dictionaries(
+                            {"year": st.integers(1985, 2036), "idx": st.integers(0, 1), "delta": st.one_of(st.sampled_from([-3601, -3600, -1800, -1, 0, 1, 900, 1799, 1800, 3599, 3600, 3601]), st.integers(-7200, 7200))}
+                        ),
+                    ),
                 }
             ),
             min_size=1,
@@ -114,6 +121,31 @@ def _posix_custom(spec, now):
     return "AAA%sBBB%s,J%d/0,J%d/0" % (off(m), off(m + 60), start, end)
 
 
+def _switches(year):
+    """instants in the given year at which the UTC offset of the current zone changes (libc), to the second"""
+    import calendar
+
+    t = calendar.timegm((year, 1, 1, 0, 0, 0))
+    end = calendar.timegm((year + 1, 1, 1, 0, 0, 0))
+    out = []
+    prev = time.localtime(t).tm_gmtoff
+    while t < end:
+        nxt = t + 86400
+        off = time.localtime(nxt).tm_gmtoff
+        if off != prev:
+            lo, hi = t, nxt
+            while hi - lo > 1:
+                mid = (lo + hi) // 2
+                if time.localtime(mid).tm_gmtoff == prev:
+                    lo = mid
+                else:
+                    hi = mid
+            out.append(hi)
+            prev = off
+        t = nxt
+    return out
+
+
 def _parse(s):
     return datetime.datetime.fromisoformat(s.replace("Z", "+00:00"))
 
@@ -131,6 +163,14 @@ def run_case(scn, ctx):
             for f in scn["files"]:
                 rel = "R/" + ("sub/" if scn["sub"] else "") + f["name"]
                 t = f["mtime"] if f["near_now_days"] is None else int(now) + f["near_now_days"] * 86400
+                ns = f.get("near_switch")
+                if ns:
+                    sw = _switches(ns["year"])
+                    if sw:
+                        t = sw[ns["idx"] % len(sw)] + ns["delta"]
+                        ctx.event("near_switch")
+                        if 0 <= ns["delta"] < 3600:
+                            ctx.event("within_hour_after_switch")
                 t = t + f["frac"]
                 w.put(rel, ["a5", f["size"]], mtime=t)
                 mt[rel] = t
